@@ -1,0 +1,64 @@
+//go:build verif
+
+// guarded_by declarations for C29 (data-race freedom of the lock-protected state, the part of C29 that a contract can
+// decide): the listed fields of every object that other threads can reach are read only with the named mutex held
+// (in either mode) and written only with it write-held. The verification-condition generator puts one obligation at
+// every access to such a field in EVERY function of the package - under contract or not - and one at every call of a
+// helper whose contract says it is entered with the lock held (requires held(x.mu) == -1). A field that is set
+// while the object is built and never again (AttrCache has none; FileHandleMap.maxHandles, DirCache.maxDirSize,
+// NFSNode.path, the limiters' rates) is not listed: reading it needs no lock. Comment-only file.
+package absnfs
+
+//@ guarded [node-attrs] C29 : NFSNode.mu : attrs*
+//@ guarded [attr-cache] C29 : AttrCache.mu : cache, accessList, maxSize, ttl, negativeTTL, enableNegative
+//@ guarded [dir-cache] C29 : DirCache.mu : entries, accessList, maxEntries, timeout
+//@ guarded [handle-table] C29 : FileHandleMap.RWMutex : handles, nextHandle, freeHandles, pathHandles
+//@ guarded [conn-table] C29 : Server.connMutex : activeConns, connCount
+//@ guarded [portmap] C29 : Portmapper.mu : mappings
+//@ guarded [token-bucket] C29 : TokenBucket.mu : tokens, lastRefill
+//@ guarded [sliding-window] C29 : SlidingWindow.mu : requests
+//@ guarded [per-ip] C29 : PerIPLimiter.mu : limiters, lastCleanup
+//@ guarded [per-op] C29 : PerOperationLimiter.mu : limiters, lastCleanup
+//@ guarded [handle-budget] C29 : RateLimiter.fileHandlesMu : fileHandlesGlobal
+//@ guarded [latencies] C29 : MetricsCollector.latencyMutex : readLatIdx, readLatLen, writeLatIdx, writeLatLen
+//@ guarded [logger] C29 : AbsfsNFS.loggerMu : structuredLogger
+//@ guarded [tls] C29 : TLSConfig.mu : tlsConfig
+//@ guarded [slog] C29 : SlogLogger.mu : closed
+
+// helpers that rely on their caller's lock: entered with it write-held, checked at every call site in every caller
+//@ also AttrCache.updateAccessLog
+//@ requires [caller-holds-cache-lock] {C29} held(c.mu) == -1
+//@ also AttrCache.removeFromAccessLog
+//@ requires [caller-holds-cache-lock] {C29} held(c.mu) == -1
+//@ also DirCache.updateAccessLog
+//@ requires [caller-holds-cache-lock] {C29} held(c.mu) == -1
+//@ also DirCache.removeFromAccessList
+//@ requires [caller-holds-cache-lock] {C29} held(c.mu) == -1
+//@ also PerIPLimiter.cleanup
+//@ requires [caller-holds-limiter-lock] {C29} held(pl.mu) == -1
+//@ also PerOperationLimiter.cleanup
+//@ requires [caller-holds-limiter-lock] {C29} held(pol.mu) == -1
+// (the scans call TokenBucket.Tokens, which takes and releases the BUCKET's mutex: the limiter's own stays held)
+//@ also PerIPLimiter.cleanup
+//@ loop 1 invariant {C29} held(pl.mu) == -1
+//@ loop 2 invariant {C29} held(pl.mu) == -1
+//@ also PerOperationLimiter.cleanup
+//@ loop 1 invariant {C29} held(pol.mu) == -1
+//@ loop 2 invariant {C29} held(pol.mu) == -1
+
+// The rate limiter is replaced by UpdatePolicyOptions under the policy write lock. A procedure handler runs under the
+// policy READ lock that HandleCall took for it and handed to the dispatch goroutine (C16): that is a precondition of
+// every handler (see the nfsHandler type contract in zz_contracts_handlers_verif.go) and of the two dispatchers, and
+// an obligation at each of their call sites.
+//@ guarded [policy-limiter] C29 : AbsfsNFS.policyRWMu : rateLimiter
+//@ also NFSProcedureHandler.handleNFSCall
+//@ requires [under-policy-read-lock] {C29} held(h.server.handler.policyRWMu) > 0
+//@ also NFSProcedureHandler.handleMountCall
+//@ requires [under-policy-read-lock] {C29} held(h.server.handler.policyRWMu) > 0
+
+// The worker pool's queue, context and size are replaced by Resize under resizeMu, after it has stopped the pool.
+// Submit (closeMu + the running flag), the workers (started after the replacement, joined before the next one), Stop
+// (the running flag and the close of the queue order it against Resize) and Start (called by Resize itself, or before
+// the pool is shared) are synchronised by those other means, which a guarded_by declaration cannot express: they are
+// listed as exempt and trusted. Every other access - Stats, Resize, anything added later - needs resizeMu.
+//@ guarded [pool-queue] C29 : WorkerPool.resizeMu : taskQueue, ctx, cancel, maxWorkers except WorkerPool.Submit, WorkerPool.SubmitWait, WorkerPool.worker, WorkerPool.Stop, WorkerPool.Stop$1, WorkerPool.Start
